@@ -28,6 +28,8 @@ func main() {
 		genJwsRead(r, "JWSREAD")
 	case "COSEREAD":
 		genCoseRead(r, "COSEREAD")
+	case "C20":
+		genC20(r)
 	case "C02":
 		genC02(r)
 	case "C01", "C07", "C13":
